@@ -163,17 +163,30 @@ def check_bookkeeping(ctx, db):
     # remove_overlapping_points
     f = db.fn('gdstk::FlexPath::remove_overlapping_points')
     ctx.touch(f)
-    loop = next((l for l in f.walk() if l.k == 'ForStmt'), None)
-    iff = next((i for i in (loop.child('body').walk() if loop is not None else []) if i.k == 'IfStmt'), None)
-    ok = loop is not None and iff is not None and loop.child('inc') is None
+    # from path conditions (if/else, guard clause + continue, for or while alike): both removals run under the merge test with
+    # the same index, the element removal inside a loop over all elements; the index advances exactly when the test fails
+    from .. import loops as LP
+    from ..linear import lin_add
+    outer = [l for l in f.walk() if l.k in ('ForStmt', 'WhileStmt') and LP.enclosing_loop(l) is None]
+    loop = outer[0] if outer else None
+    ok = loop is not None
     if ok:
-        th, el = iff.child('then'), iff.child('else')
-        rems = [c for c in th.walk() if c.k == 'CXXMemberCallExpr' and (c.callee or '').endswith('::remove')]
-        objs = sorted(norm(c.child('obj').text(clone.Renamer(f))) for c in rems)
-        inner = next((l for l in th.walk() if l.k == 'ForStmt'), None)
-        ok = len(rems) == 2 and inner is not None and norm(inner.child('cond').text()).endswith('< this->num_elements)') and any(o.endswith('->half_width_and_offset') for o in objs)
-        ok = ok and all(norm(c.args[0].text()) == norm(rems[0].args[0].text()) for c in rems)
-        ok = ok and el is not None and any(u.k == 'UnaryOperator' and u.op in ('++', 'post++') for u in el.walk()) and not any(u.k == 'UnaryOperator' and u.op in ('++', 'post++') and u.child('sub').k == 'DeclRefExpr' and u.child('sub').n == 'i' for u in th.walk())
+        rems = [c for c in loop.walk() if c.k == 'CXXMemberCallExpr' and (c.callee or '').endswith('::remove')]
+        def merge_pol(node):
+            pols = [pol for cnd, pol in tables.path_conds(node, stop=loop) if any(x.k == 'CXXMemberCallExpr' and (x.callee or '').endswith('::length_sq') for x in cnd.walk()) or
+                    any(x.k == 'DeclRefExpr' and x.dk == 'local' and any(y.k == 'CXXMemberCallExpr' and (y.callee or '').endswith('::length_sq') for v_ in f.walk() if v_.k == 'VarDecl' and v_.d == x.d and v_.child('init') is not None for y in v_.child('init').walk()) for x in cnd.walk())]
+            return pols
+        ok = len(rems) == 2 and all(merge_pol(c) == [True] for c in rems) and len({norm(c.args[0].text()) for c in rems}) == 1
+        inner = [LP.enclosing_loop(c) for c in rems]
+        elem = [c for c, l_ in zip(rems, inner) if l_ is not None and l_ is not loop]
+        ok = ok and len(elem) == 1
+        if ok:
+            lp = LP.Loop(f, LP.enclosing_loop(elem[0]))
+            t_ = lp.trip()
+            ok = t_ is not None and not lin_add(t_, {'this->num_elements': 1}, -1) and _strip_casts(elem[0].child('obj')).k == 'MemberExpr' and _strip_casts(elem[0].child('obj')).n == 'half_width_and_offset'
+        idx = _strip_casts(rems[0].args[0]) if rems else None
+        incs = [u for u in loop.walk() if u.k == 'UnaryOperator' and u.op in ('++', 'post++') and idx is not None and idx.k == 'DeclRefExpr' and _strip_casts(u.child('sub')).k == 'DeclRefExpr' and _strip_casts(u.child('sub')).d == idx.d]
+        ok = ok and len(incs) == 1 and merge_pol(incs[0]) == [False]
     cmpx = [x for x in f.walk() if x.k == 'BinaryOperator' and x.op in ('<', '<=') and 'length_sq' in norm(x.child('lhs').text())]
     ctx.check(len(cmpx) == 1 and cmpx[0].op == '<' and norm(cmpx[0].child('rhs').text()) == 'tol_sq', 'R-TABLE', 'remove_overlapping_points/strictly-closer', f.loc(), 'points are merged only when STRICTLY closer than the tolerance: a loaded path has a tolerance of exactly one grid step, so vertices one step apart survive a re-save',
               'the merge test is `%s`: vertices exactly one tolerance apart (one grid step after loading a file) are merged on the next save' % (norm(cmpx[0].text()) if cmpx else '?'))
